@@ -25,6 +25,11 @@ Generator grammar over an INDEPENDENT reading of the schema XML (rt/c01_schema.p
       between the copies in code-point order ('Label/ABC, Label/Abd, Label/abc'), in every order, inside groups and as
       members of repeated groups; the unique / Def / Def-expand mutations are generated in every spelling of the tag name
       with siblings between the copies.
+  part "timing": every sequence of two or three top-level-only tags (bases Delay, Duration, Onset, Offset, Inset, Definition,
+      Event-context; a repeated base gets a DIFFERENT value / spelling each time, so the copies are not "repeated tags") as
+      the top-level tags of one top-level group, with each kind of remainder (Def, inner group, both).  Rule: at most one such
+      tag per group, except Delay next to exactly one of Duration / Onset / Offset / Inset -> TAG_GROUP_ERROR otherwise
+      (clause C01.group.multiple_top_level_tags); the permitted pairs with their fitting remainder are valid.
   part "witness": fixed minimal inputs for the narrow clauses (defects seen at design time) and their neighbours.
   part "values" (rt/c01_values.py): the lexical rule of each value class on EVERY short string: all strings of length <= 4
       (thorough: 5) over '05+-.eEx ' as the value of a numeric tag without units, of a unit tag with its unit and of Duration
@@ -68,6 +73,7 @@ CL_VALUE_DT = "C01.value.datetime_out_of_range"                  # narrow: month
 CL_REPEAT = "C01.repeat.tag_or_group"
 CL_REPEAT_D2 = "C01.repeat.duplicate_groups_nonadjacent"         # narrow: defect D2
 CL_GROUP = "C01.group.misplaced"
+CL_GROUP_MULTI = "C01.group.multiple_top_level_tags"              # two / three top-level-only tags in one group
 CL_PARENS = "C01.delim.parens_mismatch"
 CL_PARENS_D1 = "C01.parens.equal_count_unbalanced"               # narrow: defect D1
 CL_EMPTY = "C01.delim.empty_or_missing_comma"
@@ -1054,6 +1060,77 @@ def matched_pairs(toks):
     return out
 
 
+
+# =====================================================================================================
+# part "timing": several top-level-only tags in one top-level group
+# =====================================================================================================
+TIMING_BASES = ("Delay", "Duration", "Onset", "Offset", "Inset", "Definition", "Event-context")
+TEMPORAL_PARTNERS = ("Duration", "Onset", "Offset", "Inset")     # what Delay may stand next to
+
+
+def timing_tag(model, base, occurrence, k):
+    """the `occurrence`-th (0, 1, 2) writing of a top-level-only tag within one group: every occurrence of Delay / Duration /
+    Definition has its own value; the name is written short, long or in another letter case (rotating with k)"""
+    node = model.node(base)
+    names = [node.name, node.long, node.name.upper(), node.name.lower()]
+    name = names[(k + occurrence) % len(names)] if occurrence or k % 3 == 0 else node.name
+    if base == "Delay":
+        return name + "/" + ("1 s", "2 s", "30 ms")[occurrence]
+    if base == "Duration":
+        return name + "/" + ("2 s", "3 s", "45 ms")[occurrence]
+    if base == "Definition":
+        return name + "/" + ("Cnewdef", "Cnewdeg", "Cnewdeh")[occurrence]
+    return name
+
+
+def part_timing(w, run, model, vocab, defs):
+    """Rule (HED specification, topLevelTagGroup): a top-level tag group holds at most ONE tag with the topLevelTagGroup
+    attribute, with one exception: Delay may accompany one of Duration, Onset, Offset, Inset."""
+    import itertools
+    before = run.n
+    has_top = {n.name for n in model.nodes if n.has("topLevelTagGroup")}
+    bases = [b_ for b_ in TIMING_BASES if b_ in has_top]
+    if "Delay" not in has_top:
+        return 0
+    a, b = defs["plain"]
+    d = "Def/" + DEF_PLAIN
+    rests = {"def": [d], "group": [[a]], "def+group": [d, [a, b]], "none": []}
+    fitting = {"Duration": ("group",), "Onset": ("def", "def+group"), "Inset": ("def", "def+group"), "Offset": ("def",)}
+    k = 0
+    for n in (2, 3):
+        for seq in itertools.product(bases, repeat=n):
+            k += 1
+            occ, tags = {}, []
+            for base in seq:
+                tags.append(timing_tag(model, base, occ.get(base, 0), k))
+                occ[base] = occ.get(base, 0) + 1
+            permitted = n == 2 and "Delay" in seq and any(t in seq for t in TEMPORAL_PARTNERS)
+            same_text = any(seq.count(x) > 1 for x in ("Onset", "Offset", "Inset", "Event-context"))
+            if permitted:
+                other = [x for x in seq if x != "Delay"][0]
+                for rk in fitting[other]:
+                    for pos in range(len(rests[rk]) + 1):
+                        # the remainder's first member before / between / after the tags
+                        members = list(rests[rk])
+                        grp = members[:pos] + tags + members[pos:] if pos <= 1 else [tags[0]] + members + [tags[1]]
+                        run.valid(render([grp]), rule="valid-timing-pair")
+                        run.valid(render(["Square", grp]), rule="valid-timing-pair")
+                continue
+            rule_any = ["group"]
+            if "Definition" in seq:
+                rule_any.append("definition")        # a Definition inside an event annotation is a violation of its own
+            if same_text:
+                rule_any.append("repeat")            # Onset,Onset is also a repeated tag
+            rest_keys = list(rests) if not w.quick or len(set(seq)) < len(seq) else [list(rests)[k % 4], list(rests)[(k + 1) % 4]]
+            for ri, rk in enumerate(rest_keys):
+                members = list(rests[rk])
+                layouts = [tags + members, members + tags, tags[:1] + members + tags[1:]]
+                grp = layouts[(k + ri) % 3]
+                ctx = [[grp], ["Square", grp], [grp, ["Circle", "Square"]]][(k + ri) % 3]
+                run.invalid(render(ctx), "group", CL_GROUP_MULTI, any_of=rule_any)
+    return run.n - before
+
+
 # =====================================================================================================
 def part_witness(w, run, model, vocab, defs):
     """minimal fixed inputs for the narrow clauses (defects seen at design time) and their passing neighbours"""
@@ -1108,6 +1185,8 @@ def _task(args):
     extra = {}
     if part == "witness":
         n = part_witness(w, run, model, vocab, defs)
+    elif part == "timing":
+        n = part_timing(w, run, model, vocab, defs)
     elif part == "values":
         from rt.c01_values import part_values
         n, run.counts, extra["bounds"] = part_values(w, env, model, defs["strings"], chunk, nchunks)
@@ -1144,11 +1223,13 @@ def run(w: Workload):
             tasks += [(w.tier, w.seed, v, "grammar", c, gchunks) for c in range(gchunks)]
             tasks += [(w.tier, w.seed, v, "vocabulary", c, vchunks) for c in range(vchunks)]
         tasks += [(w.tier, w.seed, v, "values", c, xchunks) for c in range(xchunks)]
+        if v >= "8.2.0":
+            tasks += [(w.tier, w.seed, v, "timing", 0, 1)]
     versions = value_versions
     ctx = multiprocessing.get_context("fork")
     with ctx.Pool(min(14, len(tasks))) as pool:
         results = pool.map(_task, tasks, chunksize=1)
-    order = ["witness", "vocabulary", "grammar", "values"]
+    order = ["witness", "vocabulary", "grammar", "values", "timing"]
     results.sort(key=lambda r: (versions.index(r["version"]), order.index(r["part"]), r["chunk"]))
     agg = {}
     for r in results:
@@ -1172,6 +1253,13 @@ def run(w: Workload):
         if part == "witness":
             w.part("witness[%s]" % version, cases=a["cases"], bound="fixed list of minimal inputs for the narrow clauses "
                    "and their passing neighbours", exhaustive=True, per_clause=a["counts"])
+        elif part == "timing":
+            w.part("timing[%s]" % version, cases=a["cases"],
+                   bound="all 7^2 + 7^3 sequences of two / three top-level-only tags (Delay, Duration, Onset, Offset, Inset, "
+                         "Definition, Event-context; repeated bases with different values and spellings) in one top-level group "
+                         "x %s remainders (Def, inner group, both, none) in rotating member layouts and contexts" %
+                         ("2 of 4 (all 4 when a base repeats)" if w.quick else "all 4"),
+                   exhaustive=True, per_clause=a["counts"])
         elif part == "values":
             w.part("values[%s]" % version, cases=a["cases"],
                    bound="; ".join("%s: %s" % (k, a["bounds"][k]) for k in sorted(a["bounds"])),
